@@ -129,7 +129,7 @@ def fam_link():
                     call("RequireParseableURLs", b=False)])
     recipes.append([call("ZeroValue"), call("RequireNoFollowOnLinks", b=True), call("AddTargetBlankToFullyQualifiedLinks", b=True),
                     AA(["href", "rel", "target"], ["a", "area", "link"]), call("AllowURLSchemes", schemes=["http", "https"])])
-    alpha = (av("href", ["http://e.com/x", "/rel", "javascript:x", "http://e.com/%zz", "/p?a\u00a0#", " //evil.example/x", "\u00a0//evil.example/y"]) +
+    alpha = (av("href", ["http://e.com/x", "/rel", "javascript:x", "http://e.com/%zz", "/p?a\u00a0#", " //evil.example/x", "\u00a0//evil.example/y", "http://e.com/?a=1&amp;amp;b=2"]) +
              av("rel", ["nofollow", "NOFOLLOW", "xnofollowx", "tag noopener", "notnoopenerx noreferrer", ""]) +
              av("target", ["_blank", "_top"]))
     return dict(name="link", recipes=recipes, tokens=[], attrs={"a": alpha, "area": alpha, "link": alpha})
@@ -317,7 +317,7 @@ def fam_ugc():
             tok("self", "input", (("id", "i"), ("type", "image"))), tok("self", "form", (("id", "f"),)), tok("self", "button"), tok("self", "meta", (("id", "m"),)),
             tok("self", "iframe", (("id", "x"), ("src", "http://e.com"))),
             tok("start", "a", (("href", "http://e.com/"), ("xml:href", js))), tok("start", "p", (("xml:lang", "en"), ("xml:id", "i"))),
-            tok("start", "a", (("href", "java script:x"), ("href", js))), tok("start", "img", (("src", "/i.png"), ("srcset", "data:text/html,x 1x"))),   # prefixed spellings of allowed names
+            tok("start", "a", (("href", "java script:x"), ("href", js))), tok("start", "a", (("href", "http://e.com/?a=1&amp;amp;b=2"),)), tok("start", "img", (("src", "/i.png"), ("srcset", "data:text/html,x 1x"))),   # prefixed spellings of allowed names
             tok("start", "iframe", (("src", "http://e.com"),)), tok("end", "iframe"), tok("start", "object"), tok("end", "object"),
             tok("start", "svg"), tok("start", "math"), tok("start", "form"), tok("start", "input", (("type", "image"), ("src", js))),
             tok("start", "base", (("href", "//x"),)), tok("start", "meta"), tok("start", "link", (("rel", "stylesheet"), ("href", "x"))),
@@ -473,7 +473,7 @@ def fam_nestf():
     base = [call("NewPolicy"), call("AllowElements", names=["b"]), AA(["title"], ["font"])]
     recipes = [base, base + [call("AddSpaceWhenStrippingTag", b=True), call("SkipElementsContent", names=["font"])]]
     toks = [tok("start", "font"), tok("start", "font", (("title", "t"),)), tok("end", "font"), tok("start", "b"), tok("end", "b"),
-            tok("start", "object"), tok("end", "object"), tok("text", d="txt")]
+            tok("start", "object"), tok("end", "object"), tok("self", "object"), tok("text", d="txt")]
     return dict(name="nestf", recipes=recipes, tokens=toks, wellnested=True)
 
 def fam_nestx():
